@@ -181,7 +181,7 @@ def big_endian_int_to_digits(
             raise ValueError('No digit count. Provide `digit_count` when base is an int.')
         base = (base,) * digit_count
     else:
-        base = tuple(base)
+        base = tuple(int(b) for b in base)
         if digit_count is None:
             digit_count = len(base)
 
